@@ -250,7 +250,7 @@ QEff(op, S, X) ==
       [] o = "pred_unchecked" ->
            IF HasDict(S.kind) /\ PredExists(X, op.q, op.strict) THEN EFKeep(S) ELSE EFNa(S)
       [] o = "reload" ->
-           IF op.mode \in {"full", "eps", "mmap"} /\ (op.mode = "full" \/ S.kind \notin FullOnlyKinds)
+           IF op.mode \in {"full", "eps", "eps8", "mmap"} /\ (op.mode = "full" \/ S.kind \notin FullOnlyKinds)
            THEN EFKeep(S) ELSE EFNa(S)
 
 Eff(op, S, X) ==
